@@ -328,6 +328,10 @@ func expectedMsg(op *Op, tag string) string {
 			return "{boom " + tag + "}"
 		case "int":
 			return "42"
+		case "data":
+			return "boom " + tag + " " + op.Text
+		case "dataerr":
+			return "boom " + tag + " " + op.Text
 		default:
 			return "boom " + tag
 		}
@@ -337,6 +341,23 @@ func expectedMsg(op *Op, tag string) string {
 
 func (in *inv) step(op *Op) {
 	r, t := in.r, in.t
+	switch op.Op {
+	case "errorf", "error", "fatalf", "fatal", "panic", "rterr":
+		if op.Var != "" { // a failure whose message / panic value shows the data it failed on
+			c := *op
+			c.Var = ""
+			c.Text = op.Text + " " + fmtVal(in.vars[op.Var])
+			if c.Op == "rterr" && c.Val == "indexv" {
+				n, _ := toBig(in.vars[op.Var])
+				c.N = 3
+				if n != nil {
+					c.N = 3 + int(new(big.Int).Mod(new(big.Int).Abs(n), big.NewInt(1000000)).Int64())
+				}
+			}
+			in.step(&c)
+			return
+		}
+	}
 	switch op.Op {
 	case "draw":
 		b := r.genv.Build(op.Gen)
@@ -760,11 +781,18 @@ func failAt(t *rapid.T, op *Op, tag string) {
 			panic(customPanic{"boom " + tag})
 		case "int":
 			panic(42)
+		case "data":
+			panic("boom " + tag + " " + op.Text)
+		case "dataerr":
+			panic(fmt.Errorf("boom %s %s", tag, op.Text))
 		default:
 			panic("boom " + tag)
 		}
 	case "rterr":
 		switch op.Val {
+		case "indexv":
+			s := make([]int, 3)
+			_ = s[op.N]
 		case "nilmap":
 			var m map[string]int
 			m["x"] = 1
